@@ -94,6 +94,9 @@ func c04LD(c *Ctx, stream string, fw []byte, vcpus int, product int, known *c04K
 	default:
 		impl = "ok " + hx(d1) + " " + hx(d1)
 		c.Count("outcome:ok")
+		if _, ok := c04Widths[product]; !ok {
+			c.Count("observation:digest-for-unsupported-product")
+		}
 	}
 	if !panicked {
 		if (e1 == nil) != (e2 == nil) || !bytes.Equal(d1, d2) {
@@ -393,6 +396,65 @@ func runC04(c *Ctx) {
 		def = append(def, c04Sec{s.Address, s.Length, s.Kind})
 	}
 	c04LD(c, "c04", lgtm, 4, 1, &c04Known{def, fakeovmf.SevEsAddrVal}, "pinned:LGTM")
+
+	// (1b) the kernel-evaluated example image of Model/SevExample.lean (theorems C04_example_*): built here
+	// independently, its bytes compared with the driver's, and run through the real code for the vCPU
+	// counts and products the theorems instantiate; each edited variant must be refused with the class the
+	// Lean theorem C04_example_rejected_* states (compared through the model line) and for the clause the
+	// direct oracle computes.
+	exSecs := []c04Sec{{0x80D000, 0x1000, 2}, {0x800000, 0x9000, 1}, {0x80E000, 0x1000, 3}, {0x80C000, 0x1000, 4}}
+	exVariants := []struct {
+		name string
+		idx  int
+		sec  c04Sec
+	}{
+		{"base", -1, c04Sec{}},
+		{"misaligned-address", 0, c04Sec{0x810800, 0x1000, 2}},
+		{"misaligned-length", 1, c04Sec{0x800000, 0x8800, 1}},
+		{"empty", 3, c04Sec{0x80C000, 0, 4}},
+		{"overlap", 3, c04Sec{0x808000, 0x1000, 4}},
+		{"duplicate-cpuid", 3, c04Sec{0x80C000, 0x1000, 3}},
+		{"duplicate-secrets", 3, c04Sec{0x80C000, 0x1000, 2}},
+		{"missing-unmeasured", 1, c04Sec{0x800000, 0x9000, 4}},
+		{"missing-secrets", 0, c04Sec{0x80D000, 0x1000, 1}},
+		{"missing-cpuid", 2, c04Sec{0x80E000, 0x1000, 1}},
+		{"unknown-kind", 3, c04Sec{0x80C000, 0x1000, 5}},
+	}
+	for _, v := range exVariants {
+		secs := append([]c04Sec(nil), exSecs...)
+		if v.idx >= 0 {
+			secs[v.idx] = v.sec
+		}
+		fw := c04Standard(0x1000, 0x80b004, secs, 0).build()
+		c.Case("c04 op=example name="+v.name, "ok "+hx(fw), true)
+		for _, vp := range [][2]int{{1, 1}, {4, 1}, {1, 2}, {4, 2}} {
+			c04LD(c, "c04", fw, vp[0], vp[1], &c04Known{secs, 0x80b004}, "lean-example:"+v.name)
+		}
+		c.Count("gen:lean-example")
+	}
+	// the witnesses of C04_unsupported_product_witness: 8 KiB images (metadata 4096 bytes from the end) under
+	// product values that are not keys of sev.bitWidth (UNKNOWN 0, Turin 3 — the value `--snp_product Turin`
+	// yields — and 7), next to Milan and Genoa.  Not an oracle clause (the property quantifies over the
+	// supported products): the outcome is compared with the model, whose behaviour for these values is
+	// characterised by the theorem C04_unsupported_product_behaviour; the histogram records how often the real
+	// code returned a digest for an unsupported product.
+	wideSecs := []c04Sec{{0x80D000, 0x2000, 2}, {0x800000, 0x9000, 1}, {0x80F000, 0x2000, 3}, {0x80B000, 0x2000, 4}}
+	for _, w := range []struct {
+		name string
+		secs []c04Sec
+	}{{"wide", wideSecs}, {"two-page", exSecs}} {
+		fw := c04Standard(0x2000, 0x80b004, w.secs, 0x1000).build()
+		c.Case("c04 op=example name="+w.name, "ok "+hx(fw), true)
+		for _, p := range []int{0, 3, 7, 1, 2} {
+			for _, v := range []int{1, 4} {
+				c04LD(c, "c04", fw, v, p, &c04Known{w.secs, 0x80b004}, "lean-example:"+w.name)
+			}
+		}
+		c.Count("gen:lean-example")
+	}
+	for _, p := range []int{0, 3} {
+		c04LD(c, "c04", c04Standard(0x1000, 0x80b004, exSecs, 0).build(), 1, p, &c04Known{exSecs, 0x80b004}, "lean-example:base")
+	}
 
 	// (2) VMSA pages: BSP, and APs over reset vectors
 	c04VMSA(c, false, 0)
